@@ -1,7 +1,7 @@
 //! Properties decided on the REPL world: C08 convergence, C19 uniqueness across replicas,
 //! C09 deletions never resurrected / laggards refused.
 
-use crate::worlds::repl::{Cfg, Repl};
+use crate::worlds::repl::{Cfg, Op, Repl};
 use kv_engine::forkdfs::{self, Opts};
 use kv_engine::{Ctx, Level};
 use serde_json::json;
@@ -14,25 +14,27 @@ fn cfgs(id: &str, quick: bool) -> Vec<(&'static str, Cfg, u8)> {
                 // concurrent edits of one entry that every replica already has
                 (
                     "edit-conflicts",
-                    Cfg { replicas: 2, slots: vec![0], names: 2, disp: true, rename: true, lifecycle: true, revive: true, members: false, refresh: false, aging: false, max_repl: 1, precreate: vec![0], same_time: false, props: props(&["C08"]) },
+                    // quick: one rename target and one displayname value, no replication steps inside the
+                    // trace (every state is run to quiescence under both edge orders anyway)
+                    Cfg { replicas: 2, slots: vec![0], names: 2, disp: true, rename: true, lifecycle: true, revive: true, members: false, refresh: false, aging: false, max_repl: if quick { 0 } else { 1 }, precreate: vec![0], same_time: false, props: props(&["C08"]), pre_ops: vec![], small: quick },
                     if quick { 2 } else { 4 },
                 ),
                 // the same uuid / the same name created independently; membership vs delete
                 (
                     "create-conflicts",
-                    Cfg { replicas: 2, slots: vec![0, 2], names: 2, disp: false, rename: false, lifecycle: true, revive: false, members: true, refresh: false, aging: false, max_repl: 1, precreate: vec![], same_time: false, props: props(&["C08"]) },
+                    Cfg { replicas: 2, slots: vec![0, 2], names: 2, disp: false, rename: false, lifecycle: true, revive: false, members: true, refresh: false, aging: false, max_repl: 1, precreate: vec![], same_time: false, props: props(&["C08"]), pre_ops: vec![], small: false },
                     if quick { 2 } else { 4 },
                 ),
             ];
             if !quick {
                 v.push((
                     "same-timestamp",
-                    Cfg { replicas: 2, slots: vec![0], names: 2, disp: true, rename: true, lifecycle: true, revive: true, members: false, refresh: true, aging: false, max_repl: 1, precreate: vec![0], same_time: true, props: props(&["C08"]) },
+                    Cfg { replicas: 2, slots: vec![0], names: 2, disp: true, rename: true, lifecycle: true, revive: true, members: false, refresh: true, aging: false, max_repl: 1, precreate: vec![0], same_time: true, props: props(&["C08"]), pre_ops: vec![], small: false },
                     3,
                 ));
                 v.push((
                     "three-replicas",
-                    Cfg { replicas: 3, slots: vec![0], names: 2, disp: true, rename: false, lifecycle: true, revive: false, members: false, refresh: false, aging: false, max_repl: 1, precreate: vec![0], same_time: false, props: props(&["C08"]) },
+                    Cfg { replicas: 3, slots: vec![0], names: 2, disp: true, rename: false, lifecycle: true, revive: false, members: false, refresh: false, aging: false, max_repl: 1, precreate: vec![0], same_time: false, props: props(&["C08"]), pre_ops: vec![], small: false },
                     3,
                 ));
             }
@@ -41,19 +43,32 @@ fn cfgs(id: &str, quick: bool) -> Vec<(&'static str, Cfg, u8)> {
         "C19" => vec![
             (
                 "names-two-replicas",
-                Cfg { replicas: 2, slots: vec![0, 1], names: 2, disp: false, rename: true, lifecycle: true, revive: true, members: false, refresh: false, aging: false, max_repl: 1, precreate: vec![], same_time: false, props: props(&["C19"]) },
+                Cfg { replicas: 2, slots: vec![0, 1], names: 2, disp: false, rename: true, lifecycle: true, revive: true, members: false, refresh: false, aging: false, max_repl: 1, precreate: vec![], same_time: false, props: props(&["C19"]), pre_ops: vec![], small: false },
                 if quick { 2 } else { 4 },
             ),
         ],
         _ => vec![
             (
                 "delete-vs-edit",
-                Cfg { replicas: 2, slots: vec![0], names: 1, disp: true, rename: false, lifecycle: true, revive: false, members: false, refresh: false, aging: false, max_repl: 2, precreate: vec![0], same_time: false, props: props(&["C09"]) },
+                Cfg { replicas: 2, slots: vec![0], names: 1, disp: true, rename: false, lifecycle: true, revive: false, members: false, refresh: false, aging: false, max_repl: 2, precreate: vec![0], same_time: false, props: props(&["C09"]), pre_ops: vec![], small: false },
+                if quick { 2 } else { 4 },
+            ),
+            (
+                // replica 0 created, deleted and tombstoned the entry; replica 1 never saw it
+                "tombstone-vs-create",
+                Cfg { replicas: 2, slots: vec![0], names: 1, disp: true, rename: false, lifecycle: true, revive: false, members: false, refresh: false, aging: false, max_repl: 1, precreate: vec![], same_time: false, props: props(&["C09"]), pre_ops: vec![Op::Create(0, 0, 0), Op::Delete(0, 0), Op::AgeRecycle(0)], small: true },
+                if quick { 2 } else { 4 },
+            ),
+            (
+                // the same with the roles swapped: the joined replica made the tombstone, so the
+                // other side has no knowledge of its server id at all and is supplied unconditionally
+                "tombstone-vs-create-swapped",
+                Cfg { replicas: 2, slots: vec![0], names: 1, disp: true, rename: false, lifecycle: true, revive: false, members: false, refresh: false, aging: false, max_repl: 1, precreate: vec![], same_time: false, props: props(&["C09"]), pre_ops: vec![Op::Create(1, 0, 0), Op::Delete(1, 0), Op::AgeRecycle(0)], small: true },
                 if quick { 2 } else { 4 },
             ),
             (
                 "aging",
-                Cfg { replicas: 2, slots: vec![0], names: 1, disp: false, rename: false, lifecycle: true, revive: false, members: false, refresh: false, aging: true, max_repl: 2, precreate: vec![0], same_time: false, props: props(&["C09"]) },
+                Cfg { replicas: 2, slots: vec![0], names: 1, disp: false, rename: false, lifecycle: true, revive: false, members: false, refresh: false, aging: true, max_repl: 2, precreate: vec![0], same_time: false, props: props(&["C09"]), pre_ops: vec![], small: false },
                 if quick { 2 } else { 5 },
             ),
         ],
@@ -102,7 +117,6 @@ pub fn run(id: &'static str, args: &[String]) -> ! {
     if id == "C19" {
         // single-server part: duplicates arriving in one request or in separate transactions
         let (cfg, depth) = super::dirchecks::cfg_for(id, quick);
-        let depth = if quick { 2 } else { depth };
         let mut w = crate::worlds::dir::Dir::new(cfg.clone());
         let opts = Opts { depth, procs: 2, deadline_s: if quick { 20.0 } else { 600.0 }, log2_slots: 22, dedup: true, max_samples: 3, par_depth: 1 };
         let rep = forkdfs::run_into_ctx(&mut ctx, &mut w, &opts, "dir-single");
@@ -110,7 +124,7 @@ pub fn run(id: &'static str, args: &[String]) -> ! {
         worlds.push(json!({"world": "dir-single", "depth": depth, "replicas": 1, "slots": cfg.slots, "states": rep.states, "transitions": rep.transitions, "outcomes": rep.outcomes.keys().collect::<Vec<_>>(), "complete": !rep.capped,
             "alphabet": {"names": cfg.names, "create_rename_delete_revive": true}}));
     }
-    let budget = if quick { 45.0 } else { 1500.0 } / all.len() as f64;
+    let budget = if quick { 25.0 } else { 1500.0 / all.len() as f64 };
     for (name, cfg, depth) in &all {
         let depth = ctx.opt_u64("depth").map(|d| d as u8).unwrap_or(*depth);
         let mut w = Repl::new(cfg.clone());
